@@ -119,8 +119,14 @@ def generate(rng, index, tier):
         ops = []
         for k, q in seq:
             ops.append({'k': 'raw', 'id': chosen[k], 'q': q, 'a': [1, 2, 3, 4] if chosen[k] in pool_ord else worlds.kernel.records.text_words(b'ab', 4)})
-            if rng.chance(0.2):
+            r_ = rng.random()
+            if r_ < 0.15:
                 ops.append(worlds.op_single(rng, 'MACH_MKRUNNABLE'))
+            elif r_ < 0.3:
+                # a NONE- or ALL-qualified record of one of the very codes in play (a middle chunk, a progress record of the call)
+                kk = rng.randrange(3)
+                ops.append({'k': 'raw', 'id': chosen[kk], 'q': rng.pick([0, 0, 3]),
+                            'a': [1, 2, 3, 4] if chosen[kk] in pool_ord else worlds.kernel.records.text_words(b'cd', 4)})
         threads = [{'tid': 100, 'ops': ops}]
         if rng.chance(0.4):
             threads.append({'tid': 117, 'ops': worlds.gen_ops(rng, worlds.Ctx(1, 117, [100, 117]), 2, {'bsd': 1, 'mach': 1, 'tracedom': 1})})
